@@ -4,7 +4,8 @@ import BreezyVerif.Model.C43
 C43 driver.
 
   up <mode inc|full> <variant A|C followed by optional S, K: renames as found / children first; S = robust symlinks; K = kind change deletes at the new path; T = deleting a missing .bzrignore / .bzrignore-upload is tolerated> <ign> <remote> <tree> <delta> <bad links>
-     bad links = `,`-joined paths at which creating a symlink raises InvalidURL because `upload_symlink` does not escape (`-` = none)
+     bad links = `,`-joined `<link path>=!` (creating the link raises InvalidURL) / `<link path>=<path>` (the link lands at the
+              percent-decoded path) for the links `upload_symlink` mishandles because it does not escape (`-` = none)
      ign    = `,`-joined plain names (`-` = none)
      remote = `;`-joined entries, parents first: `<path>|f|<content hex>|<T|F>`, `<path>|l|<target>`, `<path>|d`
               (path = components joined by `/`; `-` = empty directory)
@@ -83,6 +84,13 @@ def parseDelta (s : String) : Option Delta :=
     pure { removed, renamed, kindChanged, added, modified }
   | _ => none
 
+/-- `<link path>=!` (InvalidURL) or `<link path>=<path the link is created at>` -/
+def parseFate (s : String) : Option (Path × Option Path) :=
+  match s.splitOn "=" with
+  | [p, "!"] => do pure (← parsePath p, none)
+  | [p, q] => do pure (← parsePath p, some (← parsePath q))
+  | _ => none
+
 def handle : List String → String
   | ["up", mode, v, ign, remote, tree, delta, bad] =>
     match (if v.toList.all (fun ch => ch == 'A' || ch == 'C' || ch == 'S' || ch == 'K' || ch == 'T') && v.length > 0
@@ -91,7 +99,7 @@ def handle : List String → String
                     robustSymlinks := v.toList.contains 'S', kindChangeAtNew := v.toList.contains 'K',
                     tolerantSpecialDelete := v.toList.contains 'T' } : Cfg)
           else none),
-          (parseTree remote).bind buildFS, parseTree tree, parseDelta delta, parseGroup bad parsePath with
+          (parseTree remote).bind buildFS, parseTree tree, parseDelta delta, parseGroup bad parseFate with
     | some v0, some root, some t, some d, some badLinks =>
       let v : Cfg := { v0 with badLinks := badLinks }
       let names := splitList ign
